@@ -7,7 +7,7 @@ use crate::model::ops::MOp::{self, *};
 use crate::model::ops::N_OPS;
 use crate::model::vm::{ErrClass, RunResult};
 use crate::props::c08::program_case;
-use crate::real::{class_matches, run_exec, run_model, run_model_calls, ExecCase};
+use crate::real::{class_matches, model_gas_after_first_compute, run_exec, run_model, run_model_calls, ExecCase};
 use crate::{ensure, viol};
 use proptest::prelude::*;
 
@@ -66,6 +66,28 @@ pub fn oracle(case: &ExecCase, obs: &mut Obs) -> Result<(), Violation> {
                 out.fin.memory.len()
             );
             obs.label("ok");
+            // The machine's public `halt` flag ("propagation of Halt encountered in compute program") set beforehand:
+            // the run stops after its first Compute (as coded) or ignores the flag; either way the reported gas is the
+            // exact sum of what was executed, children included.
+            if has_compute && !case.halt && case.parent.is_none() {
+                if let Some(after_first) = model_gas_after_first_compute(case, BUDGET, CAP) {
+                    let mut hc = case.clone();
+                    hc.halt = true;
+                    let hout = run_exec(&hc, false)?;
+                    match &hout.result {
+                        Ok(hg) => {
+                            let (_, hsum) = hout.audit;
+                            ensure!(
+                                hsum == *hg as u128 && (*hg as u128 == after_first || hg == gas),
+                                "gas:preset-halt",
+                                "machine started with the halt flag set: exec reports gas {hg}, the cost function handed out {hsum}; the total up to the join of the first Compute is {after_first}, of the whole program {gas}"
+                            );
+                            obs.label("preset-halt-compute");
+                        }
+                        Err((ix, re)) => return Err(viol!("gas:preset-halt", "machine started with the halt flag set: program that succeeds fails at op {ix}: {re:?}")),
+                    }
+                }
+            }
         }
         (RunResult::Err { index, class }, Err((ix, re))) => {
             ensure!(ix == index, "gas:error-index", "error reported at op {ix}, expected at {index} ({class:?} vs {re:?})");
